@@ -21,6 +21,12 @@ pub fn run_ops(sc: &mut ControlChange14BitMessageScanner, ops: &[i64], obs: &mut
                 *sc = Default::default();
                 None
             }),
+            // real time passes between two feeds (no effect in the model: this scanner has no
+            // notion of time)
+            10 => {
+                std::thread::sleep(std::time::Duration::from_millis(op[1] as u64));
+                Some(None)
+            }
             k => region(|| with_msg(k, op[1], op[2], op[3], &mut |m| m.feed_cc14(sc))),
         };
         match r {
@@ -70,7 +76,7 @@ pub fn exec(tag: i64, inp: &[i64]) -> Vec<i64> {
                         let t: [Tuple; 2] = m.into();
                         (0..2).all(|i| bytes_of(&g[i]) == bytes_of(&r[i]) && bytes_of(&t[i]) == bytes_of(&r[i]))
                     });
-                    o.push(same.map(|b| b as i64).unwrap_or(PANIC));
+                    o.push(same.map(|b| b as i64 & crate::sm::debug_touch(&m) as i64).unwrap_or(PANIC));
                     o
                 }
             }
@@ -112,6 +118,11 @@ pub fn exec(tag: i64, inp: &[i64]) -> Vec<i64> {
 
 /// One random operation over the 14-bit CC scanner's alphabet.
 pub fn random_op(r: &mut Rng, nch: u64, v: &mut Vec<i64>) {
+    random_op_inner(r, nch, v);
+    crate::nrpn::confuse_value(r, v);
+}
+
+fn random_op_inner(r: &mut Rng, nch: u64, v: &mut Vec<i64>) {
     // sometimes repeat an earlier operation of this history verbatim
     if v.len() >= 8 && v.len() % 4 == 0 && r.chance(1, 8) {
         let i = 4 * r.below((v.len() / 4) as u64) as usize;
@@ -259,5 +270,12 @@ pub fn gen_c08(tier: Tier, seed: u64, em: &mut Emitter) {
         let mut inp = Vec::new();
         random_history(&mut r, maxlen, &mut inp);
         em.emit_k("random", 80, inp);
+    }
+    // this scanner has no notion of time: real time passing between MSB and LSB changes nothing
+    let sleeps: &[i64] = if tier == Tier::Thorough { &[1200, 6000] } else { &[1200] };
+    for &ms in sleeps {
+        let s = 176 + r.below(16) as i64;
+        let n = r.below(32) as i64;
+        em.emit_k("real-time", 80, vec![0, s, n, 5, 10, ms, 0, 0, 0, s, n + 32, 6, 0, s, n + 32, 7]);
     }
 }
